@@ -253,6 +253,20 @@ def run_cases(run, binary, cases, tag, up_to_phase=False, relation="ops-correspo
             disagreements.append((i, c, oi, om))
     # classify: search for a concrete input on which the property itself fails
     found = 0
+    # the cases without a model run are always judged by the statement's own relation / the documented operator
+    for i, c in enumerate(cases):
+        if not c.get("no_model"):
+            continue
+        if self_relation is not None:
+            why = self_relation(binary, c)
+        else:
+            oi = parse_impl(c, impl.get(str(i), "ABORT missing"))
+            why = "implementation differs from the documented operator at this input" if oracle_agrees(c, oi, up_to_phase) is False else None
+        if why:
+            found += 1
+            if found <= 3:
+                run.violation({"case": describe(c), "what": why, "how": "register too large for the model's buffers: judged on "
+                               "implementation results only"})
     if self_relation is not None and disagreements:
         # the statement relates the implementation to itself (tools/oprel.py): evaluate that relation on the
         # implementation for the disagreeing cases first, then for a sample of all cases
